@@ -24,6 +24,7 @@ FAMILIES_OF = {
     "C14": ["soft", "softx", "softloop"],
     "C15": ["wide", "full", "deep", "lazycon", "softloop"],
     "C16": ["snapshot"],
+    "C20": ["cache"],
 }
 SIZES = {"quick": 400, "thorough": 5000}
 
